@@ -108,6 +108,7 @@ def protocols(family, validator='soft'):
     raise KeyError(family)
 
 
+FAMILIES_ALL = ['http', 'json', 'soap11', 'soap12', 'xml', 'yaml', 'msgpack']
 USER_OUTCOMES = ['return', 'client_fault', 'server_fault', 'non_fault']
 
 
